@@ -2,21 +2,16 @@ package backupfs
 
 import (
 	"io/fs"
-	"strings"
 	"time"
 )
 
 // filePath and prefix are expected to be normalized (filepath.Clean) paths
 func newPrefixFileInfo(base fs.FileInfo, filePath, prefix string) fs.FileInfo {
-	var (
-		nameOverride = ""
-		baseName     = base.Name()
-	)
-
+	// a FileInfo's name is the last element of the path: only the root of the
+	// prefix has a name that must not be reported
+	nameOverride := ""
 	if filePath == prefix {
 		nameOverride = separator
-	} else if prefix != "" && strings.HasPrefix(baseName, prefix) {
-		nameOverride = strings.TrimPrefix(baseName, prefix)
 	}
 
 	return &prefixFileInfo{
